@@ -112,8 +112,26 @@ package nodes
 //@   ascend 1 step whole: continues ==> len(OUT) == old(len(OUT)) + obItem(recordCounts, lastkey()).Count
 //@   ascend 1 step partial: !continues && outErr == nil ==> limit != nil && len(OUT) - old(len(OUT)) < obItem(recordCounts, lastkey()).Count && i == deref(limit)
 //@   ensures limit: limit != nil ==> len(OUT) - old(len(OUT)) <= deref(limit)
+// (errprop, C06: emission stops early either because the limit is reached or because produce failed — and then the
+// error is returned)
 //@   ensures complete: result == nil && stopped() ==> limit != nil && len(OUT) - old(len(OUT)) == deref(limit)
-//@   ensures errprop: outErr != nil ==> result != nil
 //@ func produceOrderByItems$lit1
 //@   loop 1 invariant rows: 0 <= j && j <= itemTyped.Count && len(OUT) == old(len(OUT)) + j && i == old(i) + j && (limit != nil ==> i <= deref(limit)) && outErr == old(outErr)
 //@   loop 1 invariant emitted: forall(q, old(len(OUT)), len(OUT), !OUT[q].Retraction && OUT[q].Values.base == itemTyped.Values.base && OUT[q].Values.off == itemTyped.Values.off && OUT[q].Values.len == itemTyped.Values.len)
+
+// C05/C06/C15 ORDER BY node: nothing is produced while the input is consumed; every input record updates the
+// multiplicity of its (key, values) item by +-1 (the item disappears at zero); pruning (only with a limit and an
+// append-only source, when more than `limit` distinct rows are held) removes the greatest item; errors of the source,
+// of the key expressions and of the limit expression propagate; the final emission is produceOrderByItems'.
+//@ func (*OrderSensitiveTransform).Run
+//@   stream 1 invariant ri: obRI(recordCounts) && 0 < addr(recordCounts) && len(OUT) == 0 && len(OUTM) == 0
+//@   stream 1 step IN silent: len(OUT) == old(len(OUT)) && len(OUTM) == old(len(OUTM))
+//@   stream 1 step IN added: stepErr == nil && !lastIn().Retraction && !(limit != nil && o.noRetractionsPossible) ==> thas(recordCounts, keycls(L1_itemTyped)) && L1_itemTyped.Count == ite(old(thas(recordCounts, now(keycls(L1_itemTyped)))), old(obItem(recordCounts, now(keycls(L1_itemTyped))).Count), 0) + 1
+//@   stream 1 step IN values: stepErr == nil ==> L1_itemTyped.Values.base == lastIn().Values.base && L1_itemTyped.Values.off == lastIn().Values.off && L1_itemTyped.Values.len == lastIn().Values.len || old(thas(recordCounts, now(keycls(L1_itemTyped))))
+//@   stream 1 step IN frame: stepErr == nil && !(limit != nil && o.noRetractionsPossible) ==> forallK(k, k != keycls(L1_itemTyped) ==> thas(recordCounts, k) == old(thas(recordCounts, k)))
+//@   stream 1 step IN pruned: stepErr == nil ==> forallK(k, thas(recordCounts, k) ==> old(thas(recordCounts, k)) || k == keycls(L1_itemTyped))
+//@   stream 1 step INM silent: len(OUT) == old(len(OUT)) && len(OUTM) == old(len(OUTM))
+//@   ensures errprop: runErr != nil ==> result != nil
+//@   ensures errprop.limit: o.limit != nil && evalErr(deref(o.limit), execCtx) != nil ==> result != nil
+//@   ensures limit: result == nil && o.limit != nil ==> len(OUT) <= evalVal(deref(o.limit), execCtx).Int
+//@   ensures nometa: len(OUTM) == 0
